@@ -132,7 +132,8 @@ PROPS = {
         required_theorems=["Rodbus.C15.tracker_bound", "Rodbus.C15.evicts_oldest", "Rodbus.C15.remove_absent",
                            "Rodbus.C15.fresh_id"],
         suites=[dict(gen="trk", n=(3000, 200000),
-                     exhaustive="all op sequences of length <= 4 (5 thorough) over {add, remove 0, remove 1, remove 2} for max_sessions 0..4")],
+                     exhaustive="all op sequences of length <= 4 (5 thorough) over {add, remove 0, remove 1, remove 2} for max_sessions 0..4"),
+                dict(gen="net", n=(60, 1500), jobs=16)],
         level_text="Proof: tracker_bound (for every add/remove sequence the number of live sessions is <= max(1,max_sessions)), evicts_oldest "
                    "(a full tracker evicts exactly the smallest id = the earliest-added live session, ids strictly increase), remove_absent "
                    "(late removal of an evicted id is a no-op), fresh_id. Tie: the production SessionTracker is driven through the verif hook on "
@@ -153,7 +154,9 @@ PROPS = {
                            "Rodbus.C16.parsed_fields_are_octets", "Rodbus.C16.splitDots_join"],
         suites=[dict(gen="flt", n=(4000, 300000)),
                 dict(gen="fltm", n=(3000, 200000),
-                     exhaustive="all 4^4 wildcard patterns over {*,0,127,255} x 5 peers (3^4+1 peers thorough)")],
+                     exhaustive="all 4^4 wildcard patterns over {*,0,127,255} x 5 peers (3^4+1 peers thorough)"),
+                dict(gen="net", n=(40, 1000), jobs=16,
+                     exhaustive="{tcp,tls,tls+authz} x 11 filters x 4 loopback source addresses; IPv6 loopback peers")],
         level_text="Proof: matches_spec (AddressFilter::matches decides exactly the declarative meaning for every filter and peer; IPv6 never "
                    "matches a wildcard), wildcard_parse_iff (a string parses iff it splits on '.' into exactly four fields each '*' or a numeral "
                    "accepted by u8::from_str, and the result is their meaning), parsed_fields_are_octets, splitDots_join/no_dot. Tie: the Rust "
@@ -168,5 +171,80 @@ PROPS = {
         rule="flt: fixed edge strings + seeded grammar-aware wildcard strings (about half valid); fltm: pattern x peer lattice + random; "
              "distinct = distinct case line; non-trivial = the string parsed / the filter matched",
         assumptions=["IPv6 peers are compared by their canonical text form in the model"],
+    ),
+    "C01": dict(
+        audit_modules=["RodbusModel.Audit.C01"],
+        required_theorems=["Rodbus.C01.handleFrame_eq_spec", "Rodbus.C01.parse_iff_valid", "Rodbus.C01.runFrames_eq_spec",
+                           "Rodbus.C01.reply_pdu_len", "Rodbus.C01.unknown_function_reply", "Rodbus.C01.invalid_request_reply",
+                           "Rodbus.C01.read_bits_payload", "Rodbus.C01.read_regs_payload", "Rodbus.C01.first_exception_reply",
+                           "Rodbus.C01.write_echo", "Rodbus.C01.session_replies", "Rodbus.Tables.fc_table_correct",
+                           "Rodbus.Tables.exception_roundtrip", "Rodbus.Tables.server_limits_correct"],
+        suites=[dict(gen="srv_tcp", n=(2500, 150000),
+                     exhaustive="MBAP: every function byte 0..255 x payload lengths {0,1,3,4,5,6} (0..12 thorough) x {configured, unconfigured} unit; "
+                                "quantity x start boundary lattice for the six ranged functions"),
+                dict(gen="srv_rtu", n=(1500, 100000), exhaustive="RTU: quantity x start boundary lattice")],
+        level_text="Proof: handleFrame_eq_spec - the model of SessionTask::handle_frame (cursor-style parser, getter loops, exception fallback, "
+                   "authorization, unit dispatch, broadcast) equals the declarative reference server Spec.Server.respond for EVERY configuration, "
+                   "handler state machine, unit map, framing and frame (no well-formedness hypothesis), lifted to sessions (runFrames_eq_spec, "
+                   "session_replies) and composed with the framing theorems of C05/C06; corollaries state each clause of the property (unknown "
+                   "function -> 01, invalid -> 03, unconfigured/empty -> silence, bit/register payload layout, first exception in ascending order, "
+                   "write echo, reply PDU <= 253 bytes); table theorems re-prove function codes, exception codes and limits against tables "
+                   "regenerated from the Rust source on every run. Tie: production SessionTask::run over an in-memory transport with instrumented handlers.",
+        level_note="Trusted: Lean kernel; translator; hand-written model of server/task.rs, server/request.rs, common/serialize.rs (tied by differential "
+                   "sessions, exhaustive on the listed sub-domains, sampled elsewhere); harness. Reading: redundant byte-count field not demanded; "
+                   "on RTU an unknown function cannot be framed (C06).",
+        technique="Lean 4 refinement proof (model of handle_frame = declarative reference server) + generated table theorems + differential sessions",
+        classify=classify_srv, nontrivial=nontrivial_srv, finding_key=no_key, rule="cases = corpus (witnesses of repaired defects first) + exhaustive sub-domains + seeded sessions of 1..12 (quick) / 1..40 (thorough) requests mixing valid (3/4), malformed (grammar-aware mutations), exception-raising and wrong-unit requests over random unit maps (0..4 units, per-address read/write exceptions), delivered frame-by-frame or under random chunkings, with commands injected; distinct = distinct case line; non-trivial = the session produced a reply or an application call",
+        assumptions=["handlers are deterministic state machines; reads do not mutate (they take &self)"],
+    ),
+    "C02": dict(
+        audit_modules=["RodbusModel.Audit.C02"],
+        required_theorems=["Rodbus.C02.calls_justified", "Rodbus.C02.write_once", "Rodbus.C02.write_once_broadcast",
+                           "Rodbus.C02.reads_ascending_prefix", "Rodbus.C02.invalid_no_effect", "Rodbus.C02.reads_no_state_change_lookup"],
+        suites=[dict(gen="srv_tcp", n=(2500, 150000)), dict(gen="srv_rtu", n=(1500, 100000)), dict(gen="srv_auth", n=(1500, 100000))],
+        level_text="Proof: calls_justified (every handler call of handle_frame is justified by a valid, in-limit, permitted request addressed to that "
+                   "unit or broadcast, and is either exactly the decoded write or a read inside the requested range), write_once / "
+                   "write_once_broadcast (exactly one write call per target with exactly count items (start+i, v_i)), reads_ascending_prefix, "
+                   "invalid_no_effect (malformed, unknown function, wrong unit, denied => no handler call, states unchanged), for all frames and "
+                   "configurations. Tie: the ordered call log (method, unit, arguments incl. the collected iterator items) and the final handler "
+                   "states of the production session are compared with the model.",
+        level_note="Trusted as C01. Frames rejected by the framer (bad CRC / bad header) never reach handle_frame: C05/C06.",
+        technique="Lean 4 proof over the call log of the handle_frame model + differential call-log comparison",
+        classify=classify_srv, nontrivial=nontrivial_srv, finding_key=no_key, rule="cases = corpus (witnesses of repaired defects first) + exhaustive sub-domains + seeded sessions of 1..12 (quick) / 1..40 (thorough) requests mixing valid (3/4), malformed (grammar-aware mutations), exception-raising and wrong-unit requests over random unit maps (0..4 units, per-address read/write exceptions), delivered frame-by-frame or under random chunkings, with commands injected; distinct = distinct case line; non-trivial = the session produced a reply or an application call",
+        assumptions=["handlers are deterministic state machines"],
+    ),
+    "C08": dict(
+        audit_modules=["RodbusModel.Audit.C08"],
+        required_theorems=["Rodbus.C08.deny_no_effect", "Rodbus.C08.allow_transparent", "Rodbus.C08.auth_first_and_args",
+                           "Rodbus.C08.per_request", "Rodbus.C08.per_request_session", "Rodbus.C08.auth_table_correct",
+                           "Rodbus.C08.read_only_policy", "Rodbus.C08.default_deny", "Rodbus.C08.deny_exception_is_01"],
+        suites=[dict(gen="srv_auth", n=(3000, 200000))],
+        level_text="Proof: deny_no_effect (deny => no handler call, states unchanged, reply [fc|0x80, 01], nothing on broadcast), allow_transparent "
+                   "(allow => identical to the run without authorization except for the authorization call), auth_first_and_args (exactly one "
+                   "authorization call, first, with the frame's unit id, the request's range or index and the session's role; none for malformed "
+                   "requests), per_request / per_request_session (no authorization state is threaded), for every policy function, role string and "
+                   "frame; auth_table_correct, read_only_policy, default_deny, deny_exception_is_01 by decide over tables regenerated from "
+                   "server/task.rs and server/handler.rs. Tie: production session with AuthorizationType::Handler(handler, role) attached through "
+                   "the hook for arbitrary role strings; policies allow/deny/hash family and the real ReadOnlyAuthorizationHandler.",
+        level_note="The role string is attached through the verif hook; extraction of the role from the certificate is C09. Trusted as C01.",
+        technique="Lean 4 proof over the handle_frame model with an arbitrary policy + generated policy tables + differential sessions",
+        classify=classify_srv, nontrivial=nontrivial_srv, finding_key=no_key, rule="cases = corpus (witnesses of repaired defects first) + exhaustive sub-domains + seeded sessions of 1..12 (quick) / 1..40 (thorough) requests mixing valid (3/4), malformed (grammar-aware mutations), exception-raising and wrong-unit requests over random unit maps (0..4 units, per-address read/write exceptions), delivered frame-by-frame or under random chunkings, with commands injected; distinct = distinct case line; non-trivial = the session produced a reply or an application call",
+        assumptions=["authorization handlers are pure functions of (callback, unit, argument, role)"],
+    ),
+    "C17": dict(
+        audit_modules=["RodbusModel.Audit.C17"],
+        required_theorems=["Rodbus.C17.silent_unless_addressed", "Rodbus.C17.broadcast_write", "Rodbus.C17.broadcast_read_ignored",
+                           "Rodbus.C17.broadcast_never_answered", "Rodbus.C17.unit0_ordinary_on_tcp"],
+        suites=[dict(gen="srv_rtu", n=(3000, 200000)), dict(gen="srv_tcp", n=(800, 50000))],
+        level_text="Proof: silent_unless_addressed (for EVERY pdu - valid, failing in the handler or malformed - a frame for an unconfigured, "
+                   "non-broadcast address yields no reply and no call), broadcast_write (RTU destination 0, valid write => exactly one write call per "
+                   "configured unit in ascending order, results ignored, no reply), broadcast_never_answered (not even exceptions, also when "
+                   "malformed or denied), broadcast_read_ignored, unit0_ordinary_on_tcp. Tie: production RTU sessions over the in-memory transport "
+                   "with unit maps of 0..4 units and random destinations incl. 0 and unconfigured ids; silence is visible as absent bytes before the "
+                   "reply of a later request.",
+        level_note="Trusted as C01. Finding F1 (malformed frames to unconfigured units were answered) is fixed in the tree.",
+        technique="Lean 4 proof (RTU instance of the handle_frame model) + differential RTU sessions",
+        classify=classify_srv, nontrivial=nontrivial_srv, finding_key=no_key, rule="cases = corpus (witnesses of repaired defects first) + exhaustive sub-domains + seeded sessions of 1..12 (quick) / 1..40 (thorough) requests mixing valid (3/4), malformed (grammar-aware mutations), exception-raising and wrong-unit requests over random unit maps (0..4 units, per-address read/write exceptions), delivered frame-by-frame or under random chunkings, with commands injected; distinct = distinct case line; non-trivial = the session produced a reply or an application call",
+        assumptions=["a serial bus delivers every frame to every device; framing is by the length rule of C06"],
     ),
 }
